@@ -393,6 +393,7 @@ fn laws_engine() -> Tera {
         ("trunc_e", "{{ v | truncate(length=n, end=e) }}"),
         ("repl", "{{ v | replace(from=a, to=b) }}"),
         ("trimp", "{{ v | trim(pat=a) }}\u{1}{{ v | trim_start(pat=a) }}\u{1}{{ v | trim_end(pat=a) }}"),
+        ("indw", "{{ v | indent(width=w, first=fi, blank=bl) }}"),
         ("int", "{{ v | int }}"),
         ("float", "{{ v | float }}"),
         ("abs", "{{ v | abs }}"),
@@ -560,8 +561,29 @@ fn law_case(cx: &mut Cx, t: &Tera, rng: &mut Rng) {
     }
     // indent: only injects `width` spaces at line starts; whether whitespace-only lines count as blank and
     // whether an empty trailing line is indented is not documented precisely: both readings are accepted
-    for (k, width, first, blank) in [(14usize, 4usize, false, false), (15, 2, true, false), (16, 4, false, true)] {
+    // a fourth spelling takes its width from the context: small widths, powers of two and their neighbours, up to 1000
+    let iw = match rng.below(4) {
+        0 => rng.below(10),
+        1 => *rng.pick(&[15usize, 16, 17, 31, 32, 33, 63, 64, 65, 127, 128, 129, 191, 192, 255, 256, 257, 512, 640, 960, 999, 1000]),
+        2 => 64 * (1 + rng.below(15)),
+        _ => rng.below(1001),
+    };
+    let (ifirst, iblank) = (rng.bool(), rng.bool());
+    let mut cw = ctx.clone();
+    cw.insert_value("w", Value::from(iw as u64));
+    cw.insert_value("fi", Value::from(ifirst));
+    cw.insert_value("bl", Value::from(iblank));
+    let outw = match rend!("indw", &cw) {
+        Ok(s) => s,
+        Err(e) => {
+            fail!("indent-error", json!({"v": v, "width": iw, "first": ifirst, "blank": iblank}), "{v:?} | indent(width={iw}, first={ifirst}, blank={iblank}) failed: {e}");
+            return;
+        }
+    };
+    cx.cell(format!("laws|indent-width|{}|{}|{}", if iw == 0 { "0" } else if iw % 64 == 0 { "x64" } else if iw < 64 { "<64" } else { ">64" }, ifirst, iblank));
+    for (k, width, first, blank) in [(14usize, 4usize, false, false), (15, 2, true, false), (16, 4, false, true), (usize::MAX, iw, ifirst, iblank)] {
         let ind = " ".repeat(width);
+        let (got, spelled) = if k == usize::MAX { (&outw, format!("indent(width={iw}, first={ifirst}, blank={iblank})")) } else { (&out[k], STR_FILTERS[k].to_string()) };
         let mut accepted = Vec::new();
         for ws_is_blank in [false, true] {
             for indent_trailing_empty in [false, true] {
@@ -588,11 +610,11 @@ fn law_case(cx: &mut Cx, t: &Tera, rng: &mut Rng) {
         if v.is_empty() {
             accepted.push(String::new());
         }
-        if !accepted.contains(&out[k]) {
-            if accepted.iter().any(|e| e.replace("\r\n", "\n") == out[k]) {
-                fail!("indent-rewrites-crlf", rp.clone(), "{v:?} | {} -> {:?}: the line terminators were changed", STR_FILTERS[k], out[k]);
+        if !accepted.contains(got) {
+            if accepted.iter().any(|e| e.replace("\r\n", "\n") == *got) {
+                fail!("indent-rewrites-crlf", rp.clone(), "{v:?} | {} -> {:?}: the line terminators were changed", spelled, got);
             } else {
-                fail!("indent", rp.clone(), "{v:?} | {} -> {:?}, expected {:?}", STR_FILTERS[k], out[k], accepted[0]);
+                fail!("indent", rp.clone(), "{v:?} | {} -> {:?}, expected {:?}", spelled, got, accepted[0]);
             }
         }
     }
